@@ -109,7 +109,7 @@ def _corr_job(job):
                 if collinear(s, vec):
                     st.count('collinear_skipped')
                     continue
-                for indices in (0, [0], [0, 1], [1, 0]):
+                for indices in (0, [0], [0, 1], [1, 0]):   # single index, list, ascending and non-ascending selection
                     if isinstance(indices, list) and len(indices) > 1 and collinear(other, vec):
                         continue
                     st.count('evaluations')
@@ -247,9 +247,11 @@ def judge_sequence(calls):
 def call_menu():
     calls = []
     for r in (1, 2, 3):
-        for idx in itertools.combinations(range(4), r):
+        for idx in itertools.permutations(range(4), r):      # ascending and non-ascending selections
             calls.append(('dup', list(idx)))
     calls.append(('dup', 2))
+    calls.append(('comb', [3, 0], 'linear'))
+    calls.append(('comb', [2, 1, 0], '_xor'))
     for r in (2, 3):
         for idx in itertools.combinations(range(4), r):
             for c in COMB:
@@ -352,6 +354,10 @@ def _labels_job(job):
                 for d in distributions(n):
                     cases.append((N, n, d, 'list', relation))
                     cases.append((N, n, d, 'array', relation))
+    if n == 2:
+        # many classes with the scalar (equal-split) distribution
+        for nn in range(5, 61):
+            cases.append((240, nn, 0.5, 'scalar', 'linear'))
     for N, n_, p, ptype, relation in cases[lo:hi]:
         st.count('evaluations')
         st.count('nontrivial')
@@ -519,7 +525,7 @@ def run(ctx):
     jobs += [('corr_chain', (lo, hi)) for lo, hi in shards(78, 6)]
     nm = len(call_menu())
     jobs += [('seq', (1, 0, nm))]
-    short = 12
+    short = len([c for c in call_menu() if (c[0] == 'dup' and (not isinstance(c[1], list) or len(c[1]) <= 2)) or (c[0] == 'comb' and c[2] in ('linear', '_xor') and len(c[1]) == 2)])
     jobs += [('seq', (2, lo, hi)) for lo, hi in shards(short ** 2, 8)]
     if ctx.thorough:
         jobs += [('seq', (3, lo, hi)) for lo, hi in shards(short ** 3, 32)]
